@@ -81,6 +81,13 @@ def check_case(case):
     from edgegraph.output import plantuml
 
     vs, ls, u = render.build(case)
+    if case.get("extra", 0) & 2:
+        from edgegraph.structure import Vertex
+        from eglib import classes as C
+
+        for v in vs:
+            if type(v) is Vertex and v.i % 2 == 0:
+                v.__class__ = C.DefaultAttrVertex      # answers every unknown attribute with None
     keep = {}     # the caller's option table object, reused across renderings in half of the cases
     sel = case.get("extra", 0)
     if sel & 4 and u.vertices and not (case["opt"] & 1):
